@@ -316,11 +316,7 @@ func (o *Obl) discharge(timeoutS int) {
 	sps := solvers
 	if o.Kind == "rel" && !o.Canary {
 		// relational goals: race the three configurations, first definitive answer wins
-		tmo := timeoutS
-		if tmo < 30 {
-			tmo = 30 // two-run goals: few, large; the margin costs nothing when they are proved
-		}
-		res, name, d := raceSolvers(relSolvers, q, tmo)
+		res, name, d := raceSolvers(relSolvers, q, timeoutS)
 		o.TimeMS = int(d / time.Millisecond)
 		o.Solver = name
 		switch res {
@@ -450,7 +446,25 @@ func dischargeAll(obls []*Obl, timeoutS, workers int) {
 			units = append(units, o)
 		}
 	}
-	dischargeUnits(units, timeoutS, workers)
+	var relWhole, rest []*Obl
+	for _, u := range units {
+		if u.Kind == "rel" && !u.Canary {
+			relWhole = append(relWhole, u)
+		} else {
+			rest = append(rest, u)
+		}
+	}
+	dischargeUnits(rest, timeoutS, workers)
+	// two-run goals: each races three solver processes, so fewer run at a time (the cores are
+	// not oversubscribed) and each gets a generous limit; the split pass below is the second chance
+	rw, rt := workers*3/8, timeoutS
+	if rw < 1 {
+		rw = 1
+	}
+	if rt < 30 {
+		rt = 30
+	}
+	dischargeOnce(relWhole, rt, rw)
 	combineParts(parts)
 	// relational goals are tried whole first (the two-run context is the fixed cost of every
 	// query); the ones left undecided are then split into their conjuncts
@@ -465,7 +479,11 @@ func dischargeAll(obls []*Obl, timeoutS, workers int) {
 		}
 	}
 	if len(units) > 0 {
-		dischargeUnits(units, timeoutS, workers)
+		t2 := timeoutS
+		if t2 < 30 {
+			t2 = 30 // few and large: the margin costs nothing when they are proved
+		}
+		dischargeUnits(units, t2, rw)
 		for o := range parts {
 			o.TimeMS = 0
 		}
